@@ -10,7 +10,8 @@ SPEC = dict(
     level_note=("Trusts the reference map (harness/common/c12_kvref.hpp), the clock interposition (self-verified at start-up: "
                 "std::chrono::system_clock::now() must return the harness value, steady_clock must not move) and the file "
                 "system of the scratch directory."),
-    technique="model-based property testing (rapidcheck histories, reference map oracle, interposed wall clock), ASan+UBSan",
+    technique=("model-based property testing (rapidcheck histories, reference map oracle, interposed wall clock), ASan+UBSan; "
+               "plan-driven thread executor with one-sided time-stamp oracle, ASan+UBSan and TSan"),
     rule=("history: config cell (maxCacheSize 1/2/1000, wheel tick 1 ms/1 s, compaction inline 64 B/4 KiB, off, background "
           "every 1 ms) x up to 48 operations drawn from set, set-with-TTL, batch (+-TTL), remove, prefix-remove, clear, "
           "expire-at (past/now/future), persist, compact, clean close/reopen, wall-clock advance (0, 1 ms, 999 ms, 1 s, 1 h, "
@@ -18,14 +19,26 @@ SPEC = dict(
           "short keys, NUL/0xff binary keys, 255-byte and 65535-byte keys), values incl. empty and 64 KiB. After every step: get, "
           "exists, ttl for every key, keys, keysWithPrefix, size, getBatch vs the reference. Non-trivial = a TTL operation "
           "followed by an advance across its expiry and a read, or a compaction/restart after TTL operations, or an overwrite "
-          "of a TTL key; distinct by hash of config + operation rows."),
+          "of a TTL key; distinct by hash of config + operation rows. expiry_race (ASan and TSan builds): 1-2 writer threads "
+          "(each key owned by one writer: set, expireAt(now + {-5,0,0.3,1,2,5,20} ms), set-with-TTL 1 s, remove) and 1-3 reader "
+          "threads (get, getBatch, exists, keys, ttl, size) over 2-6 keys racing the store's 1 ms wheel, eviction worker and "
+          "(optionally) background compaction every 1 ms; a read call that STARTED after a version's expiry had passed and been "
+          "installed (or after its overwrite/removal returned) must not return that version; non-trivial = a script with an "
+          "expiry operation and at least one judged read."),
     assumptions=["TTL arguments are > 0 and expire-at instants are ms-aligned and inside the store's documented plausibility "
                  "window (epoch > 0, before year 2300)",
                  "at expiry == now either answer is accepted (the property evaluates expiry at the moment of the read)",
                  "persist/expire-at on a key whose expiry equals the current instant are not generated (outcome is ambiguous)"],
     units=[
-        pbt("c12_kvmodel", ["harness/c12_kvmodel.cpp", "harness/c12_clock.cpp"], dict(
+        pbt("c12_kvmodel", ["harness/c12_kvmodel.cpp", "harness/c12_clock.cpp", "harness/c12_nofsync.cpp"], dict(
             history=P(1500, 12000, 8, 16, q_secs=50, t_secs=600),
         )),
+        # concurrent part: real clocks, one-sided oracle; shrinking re-runs thread schedules, keep it short
+        pbt("c12_kvconc", ["harness/c12_kvconc.cpp", "harness/c12_nofsync.cpp"], dict(
+            expiry_race=P(80, 800, 4, 8, q_secs=40, t_secs=300, extra=["--shrink-seconds", "20"]),
+        )),
+        pbt("c12_kvconc_tsan", ["harness/c12_kvconc.cpp", "harness/c12_nofsync.cpp"], dict(
+            expiry_race=P(50, 500, 4, 8, q_secs=40, t_secs=300, extra=["--no-shrink"]),
+        ), san="tsan", tsan_scope=["kvstore.hpp", "timing_wheel.hpp"]),
     ],
 )
